@@ -630,7 +630,11 @@ class Machine:
             if all(isinstance(a, (str, int)) for a in args) and len(args) == 2:
                 try:
                     return bool(eval_function(self.suppress_body, dict(zip([p.arg for p in self.suppress_body.args.args], args))))
-                except (Unknown, _Raised):
+                except _Raised as r_:
+                    if "TypeError" in str(r_):
+                        raise Raised("TypeError", line, "suppress_body: status is not an int")
+                    return Opaque("suppress")
+                except Unknown:
                     return Opaque("suppress")
             return Opaque("suppress")
         if d == "isinstance" and len(e.args) == 2:
@@ -1000,7 +1004,7 @@ class Explorer:
                 if "EndBody" in emits:
                     self.report("C05.R2", f"EndBody on abort in state {pre_state}", f"{self.cls}: the application ended mid-response and the stream completed the response (EndBody): the client sees a complete response", word, line)
             if emits.count("StreamClosed") != 1:
-                self.report("C05.R2", f"StreamClosed x{emits.count('StreamClosed')} on exit in state {pre_state}", f"{self.cls}: application exit must emit StreamClosed exactly once, emitted {emits}", word, line)
+                self.report("C05.R2sc", f"StreamClosed x{emits.count('StreamClosed')} on exit in state {pre_state}", f"{self.cls}: application exit must emit StreamClosed exactly once, emitted {emits}", word, line)
         # ---- stream-generated final responses must end the stream
         if kind == "proto" and "Response" in emits and "EndBody" in emits and "StreamClosed" not in emits:
             status = [t[1].fields.get("status_code") for t in trace if t[0] == "emit" and t[1].cls == "Response"]
@@ -1105,6 +1109,7 @@ def ws_inputs(store, params):
         out.append(("websocket.accept(bad headers)", "app_send", [lambda: {"type": "websocket.accept", "headers": _hdr(False)}], A))
         for status in (401, 204):
             out.append((f"websocket.http.response.start(status={status})", "app_send", [lambda s=status: {"type": "websocket.http.response.start", "status": s, "headers": _hdr(True)}], A))
+        out.append(("websocket.http.response.start(str status)", "app_send", [lambda: {"type": "websocket.http.response.start", "status": "403", "headers": _hdr(True)}], A))
         out.append(("websocket.http.response.start(bad headers)", "app_send", [lambda: {"type": "websocket.http.response.start", "status": 401, "headers": _hdr(False)}], A))
         for more in (True, False):
             out.append((f"websocket.http.response.body(more_body={more})", "app_send", [lambda m=more: {"type": "websocket.http.response.body", "body": b"x", "more_body": m}], A))
@@ -1145,6 +1150,7 @@ RULE_MAP = {
     "C03.R3": {"C03": "C03.R3"},
     "C03.R4": {"C03": "C03.R4"},
     "C05.R2": {"C05": "C05.R2", "C06": "C06.R8"},
+    "C05.R2sc": {"C05": "C05.R2", "C06": "C06.R8", "C07": "C07.R11"},
     "C07.R2": {"C07": "C07.R2", "C03": "C03.R7"},
     "C11.R3": {"C11": "C11.R3"},
     "C11.R4": {"C11": "C11.R4"},
@@ -1166,6 +1172,7 @@ RULE_TEXT = {
     "C03.R8": "typestate: no exception escapes handle() or app_send(None) (reading attributes that were never assigned, calling a missing collaborator)",
     "C05.R2": "typestate: application exit - 500 + EndBody + StreamClosed when no head was sent; never EndBody after a started, unfinished response; StreamClosed exactly once",
     "C06.R8": "typestate: an application that ends without completing its response always makes the stream emit StreamClosed (exactly once), which is what makes HTTP/1 close instead of waiting on / recycling an unfinished message",
+    "C07.R11": "typestate: an application that ends - in whatever state, including after its own close / denial response - makes the stream emit StreamClosed exactly once, which is what lets the protocol close the connection or re-arm the idle timer",
     "C05.R5": "typestate: a rejected application message leaves no emission and no state change (otherwise the later application exit takes the wrong arm)",
     "C05.R6": "typestate: nothing escapes app_send(None) / handle()",
     "C07.R2": "typestate: stream-generated final responses (400/404 with connection: close) also emit StreamClosed, so the protocol closes / re-arms the idle timer",
